@@ -1,6 +1,7 @@
 import PromModel.Tsdb.Merge
 import PromProofs.GoHeap
 import PromProofs.Merge
+import PromProofs.MergeTotal
 /-
   C19 — Merging series sets de-duplicates without losing data.
   Property theorems only; helper lemmas live in PromProofs/GoHeap.lean and PromProofs/Merge.lean.
@@ -96,6 +97,50 @@ example : (Chain.ofLists ([[⟨1, .float, 10⟩, ⟨3, .float, 11⟩], [⟨1, .f
     or retires an iterator). Not proved. -/
 def chain_next_total_full : Prop :=
   ∀ inputs, InputsOK inputs → (Chain.ofLists (inputs.map fun l => (l, false))).drain ≠ none
+
+/-- `chain_next_total_full` as literally stated is false: with zero inputs the first `Next` indexes
+    `c.iterators[0]` and panics (`chain_zero_iterators_panics_witness`), so the drain does not end
+    normally.  The statement for at least one input is `chain_next_total`. -/
+theorem chain_next_total_full_witness : ¬ chain_next_total_full := by
+  intro h
+  exact h [] (by intro l hl; simp at hl) (by decide)
+
+/-- The model's fuel guards never fire and no error/panic surfaces: draining at least one sorted,
+    error-free input (timestamps above `MinInt64`) always ends normally. -/
+theorem chain_next_total (inputs : List (List Sample)) (hne : inputs ≠ []) (hin : InputsOK inputs) :
+    (Chain.ofLists (inputs.map fun l => (l, false))).drain ≠ none := by
+  have hf := ofLists_fresh inputs hin
+  have hne' : (Chain.ofLists (inputs.map fun l => (l, false))).its ≠ [] := by
+    intro h0
+    have := ofLists_rest inputs
+    rw [h0] at this
+    exact hne this.symm
+  have hn := next_fresh2 _ hf hne'
+  unfold Chain.drain Chain.drainAux
+  cases hnx : (Chain.ofLists (inputs.map fun l => (l, false))).next with
+  | mk c' res =>
+    rw [hnx] at hn
+    cases res with
+    | val s =>
+      obtain ⟨_, _, cur', h', st', _, hlt, _, _⟩ := hn
+      exact drain_run _ c' cur' h' _ _ st' (by omega)
+    | fin => simp
+    | err => exact hn.elim
+    | panic => exact hn.elim
+
+/-- `chain_next_spec`, unconditional: for at least one sorted input the drain ends normally and its
+    result is strictly increasing, consists of input samples and covers every input timestamp. -/
+theorem chain_next_spec (inputs : List (List Sample)) (hne : inputs ≠ []) (hin : InputsOK inputs) :
+    ∃ raw out, (Chain.ofLists (inputs.map fun l => (l, false))).drain = some (raw, out) ∧
+      SortedL raw ∧ (∀ s ∈ raw, ∃ l ∈ inputs, s ∈ l) ∧ (∀ l ∈ inputs, ∀ p ∈ l, p.t ∈ raw.map (·.t)) := by
+  cases hd : (Chain.ofLists (inputs.map fun l => (l, false))).drain with
+  | none => exact (chain_next_total inputs hne hin hd).elim
+  | some ro => exact ⟨ro.1, ro.2, rfl, chain_next_spec_partial inputs hin ro.1 ro.2 hd⟩
+
+example : InputsOK [[⟨1, .float, 10⟩, ⟨3, .float, 11⟩], [⟨1, .float, 20⟩]] := by
+  intro l hl
+  simp only [List.mem_cons, List.not_mem_nil, or_false] at hl
+  rcases hl with rfl | rfl <;> (constructor <;> simp [SortedL, MinI64])
 
 /-- FC19a: `lastT` starts at `math.MinInt64` and a sample whose timestamp equals `lastT` is skipped, so
     chaining drops a sample at `t = MinInt64` (reproduced on the real code by suite `merge`). -/
